@@ -2,3 +2,4 @@ import FlowCalDriver.Json
 import FlowCalDriver.Text
 import FlowCalDriver.File
 import FlowCalDriver.Index
+import FlowCalDriver.Pickle
